@@ -297,6 +297,15 @@ SetPublishingMode(id, en) ==
   /\ UNCHANGED <<reqs, retx, respq, nodeVal, now>>
   /\ evt' = [ev |-> "SetPubMode", sub |-> id, en |-> en, fail |-> "none", pre |-> <<>>, out |-> <<>>, st |-> P]
 
+\* ModifySubscription (values already revised): interval, counts and priority change; the lifetime and the keep-alive
+\* counter restart from the new maxima (SubscriptionService::modify_subscription)
+ModifySub(id, ka, lt, prio, itv) ==
+  /\ id \in DOMAIN subs
+  /\ subs' = [subs EXCEPT ![id].maxKA = ka, ![id].maxLT = lt, ![id].prio = prio, ![id].itv = itv, ![id].ka = ka, ![id].lt = lt]
+  /\ UNCHANGED <<reqs, retx, respq, nodeVal, now>>
+  /\ evt' = [ev |-> "ModifySub", sub |-> id, ka |-> ka, lt |-> lt, prio |-> prio, itv |-> itv,
+             fail |-> "none", pre |-> <<>>, out |-> <<>>, st |-> P]
+
 \* CreateMonitoredItems, one item, value attribute, no filter
 CreateItem(id, i, n, qsize, dold, mode, samp) ==
   /\ id \in DOMAIN subs
